@@ -294,7 +294,16 @@ def abstract_action_ctor(text, lead="func, arg, address"):
         args.append(last)
     rest = args[1:]
     lead_args = [a.strip() for a in lead.split(",") if a.strip() and a.strip() != "-"]
-    repl = "mk_%s(%s)" % (x, ", ".join(lead_args + rest))
+    # which async sender function the dropped closure / future is wired to (e.g. `|ek| send_keyed_event(ek, …)`):
+    # kept as a marker argument so that "the model re-checks the key" stays an obligation
+    via = "Via::Inline"
+    if args:
+        mm = re.search(r"\b(send_keyed_event|process_event)\s*\(", args[0])
+        if mm:
+            via = "Via::" + {"send_keyed_event": "SendKeyedEvent", "process_event": "ProcessEvent"}[mm.group(1)]
+        elif re.search(r"\b[a-z_]\w*\s*\(", re.sub(r"\b(async|move|await|unwrap_or_throw|lock|unwrap|broadcast)\b", "", args[0])):
+            via = "Via::Other"
+    repl = "mk_%s(%s)" % (x, ", ".join(lead_args + rest + [via]))
     text = text[:toks[k].pos] + repl + text[toks[c].pos + 1:]
     return text, n + 1
 
